@@ -66,7 +66,7 @@ from ..common import Ctx, cbool
 
 LEVEL = "proof"
 TOL = 5e-6          # relative max-norm tolerance for resumed-vs-uninterrupted loss / lr histories
-ARR_L2 = 2e-5       # object / probe arrays: relative Frobenius norm ...
+ARR_L2 = 5e-5       # object / probe arrays: relative Frobenius norm ...
 ARR_MAX = 2e-4      # ... and relative max-norm (single barely-illuminated pixels: Adam amplifies float32 noise)
 TOL_REPORT = 1e-7   # reported state of the reloaded object vs the saved one (bit-exact in practice)
 
